@@ -492,4 +492,5 @@ def check(fx, rep, tier):
         check_crate(fx, rep, fx.crate('zlink_core', cfg), cfg)
     import imports
     imports.rules_of(fx, rep, 'C03', {'E1', 'E2', 'E2b'}, 'R02.8', 'an unescaped control character or NUL inside the document breaks the one-document-one-NUL framing')
+    imports.layer(fx, rep, 'C02')
     return META
